@@ -344,8 +344,16 @@ class Interp:
             env["@raised"] = True
             return
         if isinstance(st, (ast.Continue, ast.Break)):
+            if isinstance(st, ast.Break):
+                # the item at which the loop is left was selected by the conditions
+                # met in this iteration: after the loop it is that item, not any item
+                for nm_ in env.get("@looptargets", ()):
+                    if nm_ in env:
+                        env[nm_] = self._guarded(env, env[nm_])
             env["@live"] = False
             env["@loopjump"] = True
+            if isinstance(st, ast.Break):
+                env["@broke"] = True
             return
         if isinstance(st, ast.If):
             return self._if(st, env, fi, rets)
@@ -622,6 +630,8 @@ class Interp:
         body_env["@absloop"] = body_env.get("@absloop", 0) + 1
         if el is not None and isinstance(st, ast.For):
             self.assign(st.target, el, body_env, fi)
+            body_env["@looptargets"] = tuple(n_.id for n_ in ast.walk(st.target)
+                                             if isinstance(n_, ast.Name))
         if isinstance(st, ast.While):
             c = self.expr(st.test, body_env, fi)
             self._refine(c, True, body_env)
@@ -643,6 +653,12 @@ class Interp:
             ends.append(j)
         if not body_env.get("@live", True) and body_env.get("@loopjump"):
             ends.append(body_env)
+        # for ... else: <always raises/returns>: the code after the loop is reached
+        # only through `break`
+        if st.orelse and isinstance(st.orelse[-1], (ast.Raise, ast.Return)):
+            broke = [e for e in ends if e.get("@broke")]
+            if broke:
+                ends = broke
         keys = set()
         for e in ends:
             keys |= {k for k in e if isinstance(k, str) and not k.startswith("@")}
